@@ -13,6 +13,7 @@ import (
 	"net/http"
 	"os"
 	"sort"
+	"strconv"
 	"strings"
 	"sync"
 	"time"
@@ -48,6 +49,15 @@ func setupTLS(dir string) error {
 // e2e drives one omniwitness.Main through a stub bastion: TLS 1.3, ALPN bastion/0, client
 // certificate, then HTTP/2 with the roles reversed (the stub is the HTTP/2 client).
 func e2e(run *ev.Run, unit int64, r *rand.Rand, dir string) {
+	// every fourth session pair runs with a real rate limit as FeedBastion itself builds it from the
+	// operator configuration (0: nothing may ever be served; 2/s and 5/s: burst + refill)
+	limit := 1e6
+	switch unit % 4 {
+	case 2:
+		limit = 0
+	case 3:
+		limit = []float64{2, 5}[(unit/4)%2]
+	}
 	u := gen.NewUniverse(r, gen.Opts{NLogs: 1 + r.IntN(3), MaxSize: 30, Branches: 2 + r.IntN(2), ShareKeys: true})
 	keys, _ := wit.NewWitKeys(r, []bool{false, true}, true)
 	var y strings.Builder
@@ -78,7 +88,7 @@ func e2e(run *ev.Run, unit int64, r *rand.Rand, dir string) {
 	go func() {
 		done <- omniwitness.Main(ctx, omniwitness.OperatorConfig{
 			WitnessKeys: keys.Signers, WitnessVerifier: keys.Signers[1].(interface{ Verifier() note.Verifier }).Verifier(),
-			BastionAddr: bl.Addr(), BastionKey: bkey, BastionRateLimit: 1e6,
+			BastionAddr: bl.Addr(), BastionKey: bkey, BastionRateLimit: limit,
 		}, inmemory.NewPersistence(), api, http.DefaultClient)
 	}()
 	apiURL := "http://" + api.Addr().String()
@@ -166,7 +176,11 @@ func e2e(run *ev.Run, unit int64, r *rand.Rand, dir string) {
 	for _, l := range u.Logs {
 		t.sess[l.Idx] = &gen.Session{WitnessSigners: 2}
 	}
-	drive(run, unit, r, t, 60)
+	if limit == 1e6 {
+		drive(run, unit, r, t, 60)
+	} else {
+		e2eBurst(run, unit, r, t, limit)
+	}
 	// the stub closes its side first (while a bastion connection is up, cancelling the context does not end Main)
 	be.Close()
 	cancel()
@@ -175,4 +189,55 @@ func e2e(run *ev.Run, unit int64, r *rand.Rand, dir string) {
 	case <-time.After(40 * time.Second):
 		run.Inconclusive("watchdog: Main did not return after the bastion connection was closed and its context cancelled")
 	}
+}
+
+// e2eBurst sends 40 requests back to back through the reverse connection of a service configured with a
+// small rate limit. Sound bound: processed <= burst(int(limit)) + limit*elapsed + 1, elapsed measured from
+// before the first request to after the last answer; a 429 must leave the served state unchanged.
+func e2eBurst(run *ev.Run, unit int64, r *rand.Rand, t *target, limit float64) {
+	l := t.u.Logs[0]
+	start := time.Now()
+	processed, limited := 0, 0
+	cur := uint64(0)
+	for i := 0; i < 40; i++ {
+		before := t.snap()
+		nx := cur + uint64(r.IntN(2))
+		if cur == 0 {
+			nx = 1 + uint64(r.IntN(2))
+		}
+		b := body(strconv.FormatUint(cur, 10), l.Branches[0].Consistency(cur, nx), l.Honest(0, nx))
+		if r.IntN(5) == 0 {
+			b = []byte("garbage")
+		}
+		code, _, rb := t.post(b)
+		run.Count("evaluations")
+		run.Count("e2e_limited_requests")
+		switch {
+		case code == 429:
+			limited++
+			run.Count("expect:429")
+			if !t.snap().Equal(before) || rb != "" {
+				run.Violate("e2e_429_but_processed", "a request answered 429 changed the served state or carried a body", unit, map[string]any{"limit": limit})
+			}
+		case code < 0:
+			run.Inconclusive("e2e burst: " + rb)
+			return
+		default:
+			processed++
+			if code == 200 {
+				cur = nx
+			}
+		}
+	}
+	el := time.Since(start).Seconds()
+	run.Distinct("nontrivial", fmt.Sprintf("e2e_limit/%v/processed=%v", limit, processed > 0))
+	d := map[string]any{"limit": limit, "processed": processed, "limited": limited, "elapsed_s": el}
+	if limit == 0 {
+		if processed != 0 {
+			run.Violate("e2e_limit0_processed", fmt.Sprintf("configured rate 0: %d of 40 requests were processed instead of answered 429", processed), unit, d)
+		}
+	} else if float64(processed) > float64(int(limit))+limit*el+1 {
+		run.Violate("e2e_limit_exceeded", fmt.Sprintf("configured rate %v/s: %d of 40 requests processed in %.3fs", limit, processed, el), unit, d)
+	}
+	run.Sample(d)
 }
